@@ -1,0 +1,607 @@
+//go:build verif
+
+package ecs
+
+import (
+	"fmt"
+	"reflect"
+	"sync/atomic"
+	"unsafe"
+)
+
+// This file is compiled only with build tag `verif`.
+// It exposes a read-only digest of the world's hidden state (VerifShape)
+// and a structural invariant checker (VerifCheckInvariants)
+// for external model-based conformance checking.
+// It does not change any behaviour of the package.
+
+// VerifTable is the digest of one archetype (table).
+type VerifTable struct {
+	Target [2]int   `json:"tgt"`    // Relation target as [id, gen].
+	Active bool     `json:"active"` // Whether the table is active (index >= 0).
+	Len    int      `json:"len"`    // Number of rows.
+	Cap    int      `json:"cap"`    // Capacity.
+	Rows   [][2]int `json:"rows"`   // Entities per row as [id, gen].
+	NLay   int      `json:"nlay"`   // Number of layout slots.
+}
+
+// VerifNode is the digest of one archetype graph node.
+type VerifNode struct {
+	Mask   []int        `json:"mask"`   // Component IDs of the node, sorted.
+	Rel    int          `json:"rel"`    // Relation component ID, or -1.
+	Active bool         `json:"active"` // Whether the node is active.
+	Tables []VerifTable `json:"tbls"`   // Tables of the node, in creation order.
+	Free   []int        `json:"free"`   // Free list (stack) of retired table indices.
+}
+
+// VerifCacheEntry is the digest of one cache entry.
+type VerifCacheEntry struct {
+	ID     int      `json:"fid"`    // Filter ID.
+	Tables [][2]int `json:"list"`   // Table references as [node index, table index], in list order.
+	HasIdx bool     `json:"hasIdx"` // Whether the Indices map was built.
+	Idx    [][3]int `json:"idx"`    // Indices content as [node index, table index, position], sorted.
+}
+
+// VerifPool is the digest of the entity pool.
+type VerifPool struct {
+	Ents  [][2]int `json:"ents"` // Slots as [link/id, gen]. Generation of slot 0 is rendered as -1.
+	Next  int      `json:"next"`
+	Avail int      `json:"avail"`
+}
+
+// VerifLocks is the digest of the lock mask and its bit pool.
+type VerifLocks struct {
+	Held  []int `json:"held"` // Lock bits currently set.
+	Len   int   `json:"len"`
+	Next  int   `json:"next"`
+	Avail int   `json:"avail"`
+	Bits  []int `json:"bits"` // Content of the bit pool up to Len.
+}
+
+// VerifShape is a JSON-serialisable digest of the hidden state of a World.
+type VerifShape struct {
+	Pool    VerifPool         `json:"pool"`
+	Eidx    [][3]int          `json:"eidx"`  // Entity index as [node index, table index, row]; node index -1 for nil.
+	TFlag   []int             `json:"tflag"` // Entity IDs flagged as potential relation targets.
+	Nodes   []VerifNode       `json:"nodes"`
+	Cache   []VerifCacheEntry `json:"cache"`
+	FidNext int               `json:"fidNext"` // Number of filter IDs ever issued by the ID pool.
+	Locks   VerifLocks        `json:"locks"`
+	NComp   int               `json:"ncomp"`
+	NRes    int               `json:"nres"`
+}
+
+func verifEnt(e Entity) [2]int {
+	gen := int(e.gen)
+	if e.gen == ^uint32(0) {
+		gen = -1
+	}
+	return [2]int{int(e.id), gen}
+}
+
+func (w *World) verifNodeIndex(nd *archNode) int {
+	ln := w.nodes.Len()
+	var i int32
+	for i = 0; i < ln; i++ {
+		if w.nodes.Get(i) == nd {
+			return int(i)
+		}
+	}
+	return -1
+}
+
+func (w *World) verifTableRef(a *archetype) [2]int {
+	if a == nil {
+		return [2]int{-1, -1}
+	}
+	ni := w.verifNodeIndex(a.node)
+	if ni < 0 {
+		return [2]int{-1, -1}
+	}
+	if !a.node.HasRelation {
+		return [2]int{ni, 0}
+	}
+	ln := a.node.archetypes.Len()
+	var j int32
+	for j = 0; j < ln; j++ {
+		if a.node.archetypes.Get(j) == a {
+			return [2]int{ni, int(j)}
+		}
+	}
+	return [2]int{ni, -1}
+}
+
+func verifTable(a *archetype) VerifTable {
+	t := VerifTable{
+		Target: verifEnt(a.RelationTarget),
+		Active: a.IsActive(),
+		Len:    int(a.len),
+		Cap:    int(a.cap),
+		Rows:   [][2]int{},
+		NLay:   len(a.layouts),
+	}
+	var r uint32
+	for r = 0; r < a.len; r++ {
+		t.Rows = append(t.Rows, verifEnt(a.GetEntity(r)))
+	}
+	return t
+}
+
+// VerifShape returns a digest of the hidden state of the world.
+func (w *World) VerifShape() VerifShape {
+	s := VerifShape{
+		Eidx:  [][3]int{},
+		TFlag: []int{},
+		Nodes: []VerifNode{},
+		Cache: []VerifCacheEntry{},
+	}
+	s.Pool = VerifPool{Ents: [][2]int{}, Next: int(w.entityPool.next), Avail: int(w.entityPool.available)}
+	for _, e := range w.entityPool.entities {
+		s.Pool.Ents = append(s.Pool.Ents, verifEnt(e))
+	}
+	for i := range w.entities {
+		idx := &w.entities[i]
+		if idx.arch == nil {
+			s.Eidx = append(s.Eidx, [3]int{-1, -1, 0})
+			continue
+		}
+		ref := w.verifTableRef(idx.arch)
+		s.Eidx = append(s.Eidx, [3]int{ref[0], ref[1], int(idx.index)})
+	}
+	for i := range w.entities {
+		if i/wordSize < len(w.targetEntities.data) && w.targetEntities.Get(eid(i)) {
+			s.TFlag = append(s.TFlag, i)
+		}
+	}
+	ln := w.nodes.Len()
+	var i int32
+	for i = 0; i < ln; i++ {
+		nd := w.nodes.Get(i)
+		vn := VerifNode{Mask: []int{}, Rel: -1, Active: nd.IsActive, Tables: []VerifTable{}, Free: []int{}}
+		for _, id := range nd.Ids {
+			vn.Mask = append(vn.Mask, int(id.id))
+		}
+		if nd.HasRelation {
+			vn.Rel = int(nd.Relation.id)
+			la := nd.archetypes.Len()
+			var j int32
+			for j = 0; j < la; j++ {
+				vn.Tables = append(vn.Tables, verifTable(nd.archetypes.Get(j)))
+			}
+			for _, f := range nd.freeIndices {
+				vn.Free = append(vn.Free, int(f))
+			}
+		} else if nd.archetype != nil {
+			vn.Tables = append(vn.Tables, verifTable(nd.archetype))
+		}
+		s.Nodes = append(s.Nodes, vn)
+	}
+	for i := range w.filterCache.filters {
+		e := &w.filterCache.filters[i]
+		ce := VerifCacheEntry{ID: int(e.ID), Tables: [][2]int{}, HasIdx: e.Indices != nil, Idx: [][3]int{}}
+		for _, a := range e.Archetypes.pointers {
+			ce.Tables = append(ce.Tables, w.verifTableRef(a))
+		}
+		if e.Indices != nil {
+			// emit in list order first, then any stale leftovers (sorted by reference)
+			seen := map[*archetype]bool{}
+			for _, a := range e.Archetypes.pointers {
+				if pos, ok := e.Indices[a]; ok && !seen[a] {
+					ref := w.verifTableRef(a)
+					ce.Idx = append(ce.Idx, [3]int{ref[0], ref[1], pos})
+					seen[a] = true
+				}
+			}
+			rest := [][3]int{}
+			for a, pos := range e.Indices {
+				if !seen[a] {
+					ref := w.verifTableRef(a)
+					rest = append(rest, [3]int{ref[0], ref[1], pos})
+				}
+			}
+			verifSort3(rest)
+			ce.Idx = append(ce.Idx, rest...)
+			verifSort3(ce.Idx)
+		}
+		s.Cache = append(s.Cache, ce)
+	}
+	s.FidNext = len(w.filterCache.intPool.pool)
+	lk := VerifLocks{Held: []int{}, Bits: []int{}}
+	for b := 0; b < MaskTotalBits; b++ {
+		if w.locks.locks.Get(id(uint8(b))) {
+			lk.Held = append(lk.Held, b)
+		}
+	}
+	lk.Len = int(w.locks.bitPool.length)
+	lk.Next = int(w.locks.bitPool.next)
+	lk.Avail = int(w.locks.bitPool.available)
+	for b := 0; b < int(w.locks.bitPool.length) && b < MaskTotalBits; b++ {
+		lk.Bits = append(lk.Bits, int(w.locks.bitPool.bits[b]))
+	}
+	s.Locks = lk
+	s.NComp = w.registry.Count()
+	s.NRes = w.resources.registry.Count()
+	return s
+}
+
+func verifSort3(v [][3]int) {
+	for i := 1; i < len(v); i++ {
+		for j := i; j > 0; j-- {
+			a, b := v[j-1], v[j]
+			if a[0] > b[0] || (a[0] == b[0] && (a[1] > b[1] || (a[1] == b[1] && a[2] > b[2]))) {
+				v[j-1], v[j] = v[j], v[j-1]
+			} else {
+				break
+			}
+		}
+	}
+}
+
+// VerifCheckInvariants checks policy-free structural invariants on the world's memory.
+// Returns a description for each violated invariant. Never panics.
+func (w *World) VerifCheckInvariants() (res []string) {
+	defer func() {
+		if r := recover(); r != nil {
+			res = append(res, fmt.Sprintf("checker-panic: %v", r))
+		}
+	}()
+	bad := func(class string, format string, args ...interface{}) {
+		res = append(res, class+": "+fmt.Sprintf(format, args...))
+	}
+
+	p := &w.entityPool
+	n := len(p.entities)
+	// Pool chain.
+	onChain := make([]bool, n)
+	cur := p.next
+	for k := uint32(0); k < p.available; k++ {
+		if int(cur) >= n || cur == 0 {
+			bad("pool-chain", "chain leaves the pool at step %d (slot %d)", k, cur)
+			break
+		}
+		if onChain[cur] {
+			bad("pool-chain", "slot %d visited twice", cur)
+			break
+		}
+		onChain[cur] = true
+		cur = p.entities[cur].id
+	}
+	if len(w.entities) != n {
+		bad("index-len", "entity index has %d slots, pool has %d", len(w.entities), n)
+	}
+	if p.entities[0].id != 0 || p.entities[0].gen != ^uint32(0) {
+		bad("pool-zero", "slot 0 is %v", p.entities[0])
+	}
+	// Entity index -> rows.
+	total := 0
+	for i := 1; i < n && i < len(w.entities); i++ {
+		idx := &w.entities[i]
+		if onChain[i] {
+			if idx.arch != nil {
+				bad("index-dead", "dead slot %d has a table", i)
+			}
+			continue
+		}
+		if int(p.entities[i].id) != i {
+			bad("pool-alive", "alive slot %d stores id %d", i, p.entities[i].id)
+		}
+		if idx.arch == nil {
+			bad("index-alive", "alive entity %d has no table", i)
+			continue
+		}
+		if !idx.arch.IsActive() {
+			bad("index-alive", "alive entity %d sits in a retired table", i)
+		}
+		if idx.index >= idx.arch.len {
+			bad("index-row", "entity %d row %d beyond len %d", i, idx.index, idx.arch.len)
+			continue
+		}
+		if got := idx.arch.GetEntity(idx.index); got != p.entities[i] {
+			bad("index-row", "entity %v indexed at row holding %v", p.entities[i], got)
+		}
+		total++
+	}
+	if total != p.Len() {
+		bad("count", "%d indexed entities, pool reports %d", total, p.Len())
+	}
+
+	maxID := w.registry.Count() - 1
+	rows := 0
+	checkTable := func(ni int, ti int, a *archetype, nd *archNode) {
+		if a.node != nd {
+			bad("table-node", "table %d/%d points to another node", ni, ti)
+		}
+		if a.Mask != nd.Mask {
+			bad("table-mask", "table %d/%d mask differs from node mask", ni, ti)
+		}
+		if len(a.layouts) <= maxID {
+			bad("layouts", "table %d/%d has %d layout slots, max registered id %d", ni, ti, len(a.layouts), maxID)
+		}
+		if len(a.layouts) > 0 && a.basePointer != unsafe.Pointer(&a.layouts[0]) {
+			bad("layouts", "table %d/%d base pointer is stale", ni, ti)
+		}
+		if a.len > a.cap {
+			bad("table-cap", "table %d/%d len %d > cap %d", ni, ti, a.len, a.cap)
+		}
+		if a.entityBuffer.Len() != int(a.cap) {
+			bad("table-cap", "table %d/%d entity buffer %d, cap %d", ni, ti, a.entityBuffer.Len(), a.cap)
+		}
+		var r uint32
+		for r = 0; r < a.len; r++ {
+			e := a.GetEntity(r)
+			if int(e.id) >= n || int(e.id) >= len(w.entities) || e.id == 0 || p.entities[e.id] != e || onChain[e.id] {
+				bad("row-entity", "table %d/%d row %d holds non-alive %v", ni, ti, r, e)
+				continue
+			}
+			idx := &w.entities[e.id]
+			if idx.arch != a || idx.index != r {
+				bad("row-entity", "table %d/%d row %d entity %v is indexed elsewhere", ni, ti, r, e)
+			}
+			rows++
+		}
+		// Zero tail.
+		for i, cid := range nd.Ids {
+			lay := a.getLayout(cid)
+			if lay.itemSize == 0 {
+				continue
+			}
+			if i >= len(a.buffers) {
+				bad("buffers", "table %d/%d has no buffer for id %d", ni, ti, cid.id)
+				continue
+			}
+			buf := a.buffers[i]
+			if buf.Len() != int(a.cap) {
+				bad("table-cap", "table %d/%d column %d has %d slots, cap %d", ni, ti, cid.id, buf.Len(), a.cap)
+				continue
+			}
+			if lay.pointer != buf.Addr().UnsafePointer() {
+				bad("layouts", "table %d/%d column %d layout pointer is stale", ni, ti, cid.id)
+				continue
+			}
+			size := uintptr(lay.itemSize)
+			from := uintptr(a.len) * size
+			to := uintptr(a.cap) * size
+			if to > from {
+				tail := unsafe.Slice((*byte)(unsafe.Add(lay.pointer, from)), to-from)
+				for k, b := range tail {
+					if b != 0 {
+						bad("zero-tail", "table %d/%d column %d byte %d beyond len is %d", ni, ti, cid.id, int(from)+k, b)
+						break
+					}
+				}
+			}
+		}
+	}
+
+	ln := w.nodes.Len()
+	var i int32
+	for i = 0; i < ln; i++ {
+		nd := w.nodes.Get(i)
+		ni := int(i)
+		// neighbors
+		for b := 0; b < MaskTotalBits; b++ {
+			if nb, ok := nd.neighbors.Get(uint8(b)); ok {
+				m := nd.Mask
+				m.Set(id(uint8(b)), !m.Get(id(uint8(b))))
+				if nb == nil || nb.Mask != m {
+					bad("neighbors", "node %d edge %d leads to a wrong node", ni, b)
+				}
+			}
+		}
+		if !nd.HasRelation {
+			if nd.archetype == nil {
+				if nd.IsActive {
+					bad("node-active", "active node %d has no table", ni)
+				}
+				continue
+			}
+			if !nd.IsActive {
+				bad("node-active", "inactive node %d has a table", ni)
+			}
+			if !nd.archetype.IsActive() {
+				bad("table-active", "non-relation table of node %d is retired", ni)
+			}
+			checkTable(ni, 0, nd.archetype, nd)
+			continue
+		}
+		la := nd.archetypes.Len()
+		if (la > 0) != nd.IsActive {
+			bad("node-active", "relation node %d active=%t with %d tables", ni, nd.IsActive, la)
+		}
+		inFree := map[int32]int{}
+		for _, f := range nd.freeIndices {
+			inFree[f]++
+			if f < 0 || f >= la {
+				bad("free-list", "node %d free list holds %d", ni, f)
+			}
+		}
+		active := 0
+		var j int32
+		for j = 0; j < la; j++ {
+			a := nd.archetypes.Get(j)
+			checkTable(ni, int(j), a, nd)
+			if a.IsActive() {
+				active++
+				if a.index != j {
+					bad("table-index", "node %d table %d has index %d", ni, j, a.index)
+				}
+				if inFree[j] != 0 {
+					bad("free-list", "node %d active table %d is on the free list", ni, j)
+				}
+				if m, ok := nd.archetypeMap[a.RelationTarget]; !ok || m != a {
+					bad("table-map", "node %d active table %d (target %v) is not mapped", ni, j, a.RelationTarget)
+				}
+				t := a.RelationTarget
+				if !t.IsZero() && int(t.id) < n && p.entities[t.id] == t && !onChain[t.id] {
+					if !w.targetEntities.Get(t.id) {
+						bad("target-flag", "node %d table %d has alive target %v without flag", ni, j, t)
+					}
+				}
+			} else {
+				if a.len != 0 {
+					bad("retired-nonempty", "node %d retired table %d has %d rows", ni, j, a.len)
+				}
+				if inFree[j] != 1 {
+					bad("free-list", "node %d retired table %d is %d times on the free list", ni, j, inFree[j])
+				}
+			}
+		}
+		if len(nd.archetypeMap) != active {
+			bad("table-map", "node %d maps %d targets, has %d active tables", ni, len(nd.archetypeMap), active)
+		}
+	}
+	if rows != total {
+		bad("count", "%d rows in tables, %d indexed entities", rows, total)
+	}
+
+	// Locks.
+	held := 0
+	for b := 0; b < MaskTotalBits; b++ {
+		if w.locks.locks.Get(id(uint8(b))) {
+			held++
+			if b >= int(w.locks.bitPool.length) {
+				bad("locks", "held bit %d was never issued", b)
+			}
+		}
+	}
+	bp := &w.locks.bitPool
+	seenBits := map[uint8]bool{}
+	curB := bp.next
+	for k := 0; k < int(bp.available); k++ {
+		if int(curB) >= int(bp.length) {
+			bad("locks", "bit chain leaves the pool at step %d", k)
+			break
+		}
+		if seenBits[curB] {
+			bad("locks", "bit %d twice on the chain", curB)
+			break
+		}
+		seenBits[curB] = true
+		if w.locks.locks.Get(id(curB)) {
+			bad("locks", "free bit %d is held", curB)
+		}
+		curB = bp.bits[curB]
+	}
+	if held != int(bp.length)-int(bp.available) {
+		bad("locks", "%d bits held, pool length %d available %d", held, bp.length, bp.available)
+	}
+
+	// Cache.
+	c := &w.filterCache
+	if len(c.indices) != len(c.filters) {
+		bad("cache-index", "%d index entries for %d filters", len(c.indices), len(c.filters))
+	}
+	for i := range c.filters {
+		e := &c.filters[i]
+		if pos, ok := c.indices[e.ID]; !ok || pos != i {
+			bad("cache-index", "filter id %d at %d is indexed at %d (%t)", e.ID, i, pos, ok)
+		}
+		seen := map[*archetype]bool{}
+		for k, a := range e.Archetypes.pointers {
+			if a == nil {
+				bad("cache-list", "entry %d position %d is nil", i, k)
+				continue
+			}
+			if seen[a] {
+				bad("cache-list", "entry %d lists a table twice", i)
+			}
+			seen[a] = true
+			if !a.IsActive() {
+				bad("cache-list", "entry %d lists a retired table", i)
+			}
+			if !e.Filter.Matches(&a.Mask) {
+				bad("cache-list", "entry %d lists a table that does not match", i)
+			}
+			if rf, ok := e.Filter.(*RelationFilter); ok && a.HasRelation() && a.IsActive() && rf.Target != a.RelationTarget {
+				bad("cache-list", "entry %d (target %v) lists a table for target %v", i, rf.Target, a.RelationTarget)
+			}
+			if e.Indices != nil && a.HasRelation() {
+				if pos, ok := e.Indices[a]; !ok || pos != k {
+					bad("cache-indices", "entry %d table at %d is indexed at %d (%t)", i, k, pos, ok)
+				}
+			}
+		}
+		for a := range e.Indices {
+			if !seen[a] {
+				bad("cache-indices", "entry %d indexes a table that is not listed", i)
+			}
+		}
+		rf, isRel := e.Filter.(*RelationFilter)
+		var ni int32
+		for ni = 0; ni < ln; ni++ {
+			nd := w.nodes.Get(ni)
+			if !nd.IsActive || !e.Filter.Matches(&nd.Mask) {
+				continue
+			}
+			if !nd.HasRelation {
+				// Unspecified for relation filters (tables without relation component).
+				if !isRel && !seen[nd.archetype] {
+					bad("cache-missing", "entry %d misses the table of node %d", i, ni)
+				}
+				continue
+			}
+			la := nd.archetypes.Len()
+			var j int32
+			for j = 0; j < la; j++ {
+				a := nd.archetypes.Get(j)
+				if !a.IsActive() || (isRel && rf.Target != a.RelationTarget) {
+					continue
+				}
+				if !seen[a] {
+					bad("cache-missing", "entry %d misses table %d of node %d", i, j, ni)
+				}
+			}
+		}
+	}
+	return res
+}
+
+// VerifFilterID returns the internal ID of a cached filter.
+func VerifFilterID(f *CachedFilter) uint32 {
+	return f.id
+}
+
+const verifOn = true
+
+// VerifRawPtrCopies counts raw (untyped) byte copies into component columns
+// whose element type contains pointers.
+var VerifRawPtrCopies atomic.Int64
+
+// verifRawCopy is called from archetype.copy.
+func verifRawCopy(a *archetype, dst unsafe.Pointer, size uint32) {
+	if a == nil || a.archetypeData == nil || a.node == nil {
+		return
+	}
+	d := uintptr(dst)
+	for i, buf := range a.buffers {
+		if !buf.IsValid() || buf.Len() == 0 || i >= len(a.node.Types) {
+			continue
+		}
+		tp := a.node.Types[i]
+		start := uintptr(buf.Addr().UnsafePointer())
+		end := start + uintptr(buf.Len())*tp.Size()
+		if d >= start && d < end {
+			if verifHasPointers(tp) {
+				VerifRawPtrCopies.Add(1)
+			}
+			return
+		}
+	}
+}
+
+func verifHasPointers(tp reflect.Type) bool {
+	switch tp.Kind() {
+	case reflect.Pointer, reflect.UnsafePointer, reflect.Map, reflect.Chan, reflect.Func,
+		reflect.Interface, reflect.Slice, reflect.String:
+		return true
+	case reflect.Array:
+		return tp.Len() > 0 && verifHasPointers(tp.Elem())
+	case reflect.Struct:
+		for i := 0; i < tp.NumField(); i++ {
+			if verifHasPointers(tp.Field(i).Type) {
+				return true
+			}
+		}
+	}
+	return false
+}
